@@ -66,5 +66,58 @@ theorem find_first {α : Type} (p : α → Bool) (pre post : List α) (s : α)
     simp only [List.cons_append, List.find?_cons, hx, Bool.not_true]
     exact ih (fun y hy => hpre y (List.mem_cons_of_mem _ hy))
 
+/-! ### interleavings of concurrently running goroutines (each goroutine = the list of its events) -/
+
+/-- `Interleave gs out`: `out` is a complete run of the goroutines `gs`: at every step some goroutine
+    that still has events emits its next one; the run ends when all are finished. -/
+inductive Interleave {α : Type} : List (List α) → List α → Prop
+  | done (gs : List (List α)) : (∀ g ∈ gs, g = []) → Interleave gs []
+  | step (pre post : List (List α)) (x : α) (g out : List α) :
+      Interleave (pre ++ g :: post) out → Interleave (pre ++ (x :: g) :: post) (x :: out)
+
+/-- every complete run is a permutation of all the goroutines' events: nothing lost, nothing twice -/
+theorem Interleave.perm {α : Type} {gs : List (List α)} {out : List α} (h : Interleave gs out) :
+    out.Perm gs.flatten := by
+  induction h with
+  | done gs h0 =>
+    have : gs.flatten = [] := List.flatten_eq_nil_iff.2 h0
+    rw [this]
+  | step pre post x g out _ ih =>
+    simp only [List.flatten_append, List.flatten_cons, List.cons_append] at ih ⊢
+    exact (List.Perm.cons x ih).trans List.perm_middle.symm
+
+/-- every goroutine's own events appear in its own order -/
+theorem Interleave.sublist {α : Type} {gs : List (List α)} {out : List α} (h : Interleave gs out) :
+    ∀ g ∈ gs, g.Sublist out := by
+  induction h with
+  | done gs h0 => intro g hg; rw [h0 g hg]; exact List.Sublist.slnil
+  | step pre post x g out _ ih =>
+    intro g' hg'
+    rcases List.mem_append.1 hg' with hp | hp
+    · exact (ih g' (List.mem_append.2 (Or.inl hp))).cons x
+    · rcases List.mem_cons.1 hp with hp | hp
+      · subst hp
+        exact (ih g (List.mem_append.2 (Or.inr (List.mem_cons_self ..)))).cons_cons x
+      · exact (ih g' (List.mem_append.2 (Or.inr (List.mem_cons_of_mem _ hp)))).cons x
+
+theorem Interleave.cons_nil {α : Type} {gs : List (List α)} {out : List α} (h : Interleave gs out) :
+    Interleave ([] :: gs) out := by
+  induction h with
+  | done gs h0 =>
+    exact .done _ (fun g hg => by
+      rcases List.mem_cons.1 hg with h | h
+      · exact h
+      · exact h0 g h)
+  | step pre post x g out _ ih => exact .step ([] :: pre) post x g out ih
+
+/-- non-vacuity: the sequential schedule (one goroutine after the other) is a run -/
+theorem Interleave.sequential {α : Type} (gs : List (List α)) : Interleave gs gs.flatten := by
+  induction gs with
+  | nil => exact .done [] (fun _ h => by cases h)
+  | cons g gs ih =>
+    induction g with
+    | nil => simpa using ih.cons_nil
+    | cons x g ihg => exact .step [] gs x g _ ihg
+
 end ListW
 end Frp
